@@ -117,6 +117,14 @@ func c08Case(w *core.Worker, i int) {
 		switch fail {
 		case "ambiguous":
 			sql = fmt.Sprintf("UPDATE %s SET %s.c1 = d.c1 FROM %s JOIN d ON %s.id = d.id;", tn, tn, tn, tn)
+		case "unknown-field":
+			// a table whose path differs from the held one only in letter case cannot be registered next to it:
+			// the failing CREATE must leave the held table (and its handler) alone
+			if state == "for-update" || state == "dirty" {
+				sql = []string{"CREATE TABLE `T.csv` (a, b);", "CREATE TABLE `T.CSV` (a) AS SELECT 1;", "CREATE TABLE `t.CSV` (a, b);"}[k%3]
+			} else {
+				valid = false
+			}
 		case "divzero":
 			sql = fmt.Sprintf("UPDATE %s SET %s.c1 = 10 / (%s.id - %d) FROM %s JOIN u ON %s.id >= u.id;", tn, tn, tn, k, tn, tn)
 			sql = fmt.Sprintf("UPDATE %s SET %s.c1 = 10 / (%s.id - %d) FROM %s JOIN one ON 1 = 1;", tn, tn, tn, k, tn)
@@ -288,7 +296,7 @@ func c08Case(w *core.Worker, i int) {
 	for _, n := range lsAfter.Names() {
 		// lock/temp files of a table the transaction now holds for update are legitimate until it ends;
 		// a failed CREATE TABLE must leave neither the new file nor its control file
-		if _, ok := lsBefore[n]; !ok && strings.Contains(n, "created.csv") {
+		if _, ok := lsBefore[n]; !ok && (strings.Contains(n, "created.csv") || strings.Contains(strings.ToUpper(n), "T.CSV") && n != "t.csv" && n != ".t.csv.lock" && n != ".t.csv.temp") {
 			viol("file-left", fmt.Sprintf("the failed CREATE TABLE left %s in the repository", n))
 		}
 	}
@@ -312,7 +320,7 @@ func c08Case(w *core.Worker, i int) {
 	s = s2
 	final := core.TakeSnap(dir)
 	for _, n := range final.Names() {
-		if core.IsControlFile(n) || n == "created.csv" {
+		if core.IsControlFile(n) || n == "created.csv" || (strings.ToUpper(n) == "T.CSV" && n != "t.csv") {
 			viol("file-left-after-commit", "after COMMIT the repository holds "+n)
 		}
 	}
